@@ -86,7 +86,9 @@ pub struct Str { pub chars: Ghost<Seq<char>> }          // Arc<str>, viewed as i
 pub struct Arr { pub elems: Ghost<Seq<Variable>> }       // Arc<Array>, viewed as its elements (element_type not modelled)
 pub struct Tup { pub elems: Ghost<Seq<Variable>> }       // Arc<[Variable]>
 pub struct FunV { pub id: Ghost<int> }                   // Arc<Function>
-pub struct MutV { pub id: Ghost<int> }                   // Arc<Mut>
+pub struct MutV { pub id: Ghost<int>, pub variable: RwLockM }   // Arc<Mut>; `variable` is the RwLock<Variable> of variable::Mut
+pub struct RwLockM { pub id: Ghost<int> }                // std::sync::RwLock<Variable>
+pub struct GuardM { pub content: Variable }              // RwLockWriteGuard<Variable>
 pub struct StructV { pub id: Ghost<int> }                // Arc<VariableMap>
 
 pub enum Variable {
@@ -166,6 +168,25 @@ impl Clone for Variable {
     fn clone(&self) -> (r: Self) ensures r == *self { unimplemented!() }
 }
 
+// ----- model of std::sync::RwLock<Variable> as used by assign::exec / try_exec -----------------
+/// content of the cell at the moment the write lock is taken (an uninterpreted function of the lock:
+/// the heap is not modelled; what is proved is how the UPDATE VALUE is computed from that content)
+pub uninterp spec fn cell(l: RwLockM) -> Variable;
+pub open spec fn cell_content(v: Variable) -> Variable { cell(v->Mut_0.variable) }
+impl RwLockM {
+    /// RwLock::write — assumed: the lock is never poisoned (no holder panics: C02's business) and the
+    /// guard dereferences to the current content
+    #[verifier::external_body]
+    pub fn write(&self) -> (r: Result<GuardM, ()>) ensures r is Ok && r->Ok_0.content == cell(*self) { unimplemented!() }
+}
+impl std::ops::Deref for GuardM {
+    type Target = Variable;
+    fn deref(&self) -> (r: &Variable) ensures *r == self.content { &self.content }
+}
+impl std::ops::DerefMut for GuardM {
+    fn deref_mut(&mut self) -> (r: &mut Variable) ensures *r == old(self).content, final(self).content == *final(r) { &mut self.content }
+}
+
 // enum-as-inner accessors generated on Variable (assumed: Ok(payload) for the matching
 // variant, Err(self) otherwise — that is what enum-as-inner 0.6 generates)
 impl Variable {
@@ -183,6 +204,11 @@ impl Variable {
         ensures self is Tuple ==> r == Ok::<Tup, Variable>(self->Tuple_0),
                 !(self is Tuple) ==> r == Err::<Tup, Variable>(self)
     { match self { Variable::Tuple(b) => Ok(b), o => Err(o) } }
+
+    pub fn into_mut(self) -> (r: Result<MutV, Variable>)
+        ensures self is Mut ==> r == Ok::<MutV, Variable>(self->Mut_0),
+                !(self is Mut) ==> r == Err::<MutV, Variable>(self)
+    { match self { Variable::Mut(b) => Ok(b), o => Err(o) } }
 
     pub fn into_function(self) -> (r: Result<FunV, Variable>)
         ensures self is Function ==> r == Ok::<FunV, Variable>(self->Function_0),
